@@ -32,7 +32,7 @@ SCENARIOS = [
     sc(3, -1, 1, ("thorough",)),
     sc(3, 1, 1, ("thorough",)),
     sc(3, 3, 1, ("thorough",)),
-    sc(1, 1, 2, ("quick", "thorough"), K=140),
+    sc(1, 1, 2, ("thorough",), K=140),
     sc(2, -1, 2, ("thorough",), K=160),
     sc(2, 2, 2, ("thorough",), K=160),
     sc(4, 2, 1, ("thorough",)),
